@@ -7,8 +7,12 @@
    byte displacement to its first auxiliary (vd_aux / vn_aux, from the entry's own
    offset), to the next entry (vd_next / vn_next, from the entry's own offset) and
    the number of auxiliaries (vd_cnt / vn_cnt); an auxiliary names the displacement
-   to the next auxiliary (vda_next / vna_next, from its own offset).  Nothing says
-   the records are adjacent, ordered or unpadded.  So the meaning of a section is
+   to the next auxiliary (vda_next / vna_next, from its own offset).  A next link of
+   ZERO means "there is no further record" (the versioning chapters give vd_next /
+   vn_next / vda_next / vna_next as the offset to the next record, 0 when there is
+   none; the dynamic linker and readelf stop there), so in a well-formed chain every record that HAS a successor carries a non-zero link; the
+   link of the last record is free (linkers write 0, nothing forces them to).  Nothing
+   says the records are adjacent, ordered or unpadded.  So the meaning of a section is
    given by a LAYOUT PREDICATE over arbitrary images: [chain img off recs] holds when
    record i sits at the offset reached by following the displacements of records
    0..i-1 starting at [off].  Every byte of the image that no record covers is
@@ -37,6 +41,18 @@ Definition placed (img : list Z) (off : Z) (bs : list Z) : bool :=
 Definition str_at (img : list Z) (off : Z) (s : list Z) : bool :=
   no_nul s && placed img off (s ++ [0]).
 
+(* ---------- next links ---------- *)
+(* a record with a successor must carry a non-zero next link; the last one is free *)
+Definition link_ok {A} (next : Z) (rest : list A) : bool :=
+  match rest with [] => true | _ :: _ => negb (next =? 0) end.
+
+(* the chain is non-empty and its last record says "no further record" *)
+Fixpoint ends_with_zero {A} (next : A -> Z) (l : list A) : bool :=
+  match l with
+  | [] => false
+  | x :: r => match r with [] => next x =? 0 | _ :: _ => ends_with_zero next r end
+  end.
+
 (* ---------- section headers: the six fields this property reads (gABI fig. 4-8) ---------- *)
 Record shdr := mk_shdr {
   sh_type : Z; sh_offset : Z; sh_size : Z; sh_entsize : Z; sh_link : Z; sh_info : Z }.
@@ -63,13 +79,13 @@ Definition linked (shdrs : list shdr) (n : nat) (ty : Z) (kty : list Z) : option
 (* ---------- version definitions ---------- *)
 Record verdaux := mk_verdaux {
   vda_name : Z;              (* string-table offset of the name *)
-  vda_next : Z;              (* displacement to the next auxiliary; free on the last one *)
+  vda_next : Z;              (* displacement to the next auxiliary (non-zero); free on the last one *)
   vda_str : list Z }.        (* the name the string table holds there *)
 
 Record verdef := mk_verdef {
   vd_version : Z; vd_flags : Z; vd_ndx : Z; vd_hash : Z;
   vd_aux : Z;                (* displacement from this entry to its first auxiliary *)
-  vd_next : Z;               (* displacement from this entry to the next; free on the last one *)
+  vd_next : Z;               (* displacement from this entry to the next (non-zero); free on the last one *)
   vd_auxs : list verdaux }.  (* vd_cnt = number of auxiliaries *)
 
 Definition verdaux_vals (a : verdaux) : list fval := [VZ (vda_name a); VZ (vda_next a)].
@@ -88,6 +104,7 @@ Fixpoint verdaux_chain (le : bool) (img : list Z) (stroff off : Z) (auxs : list 
   | a :: r =>
       verdaux_fits le a && placed img off (enc_verdaux le a)
       && str_at img (stroff + vda_name a) (vda_str a)
+      && link_ok (vda_next a) r
       && verdaux_chain le img stroff (off + vda_next a) r
   end.
 
@@ -97,6 +114,7 @@ Fixpoint verdef_chain (le : bool) (img : list Z) (stroff off : Z) (defs : list v
   | d :: r =>
       verdef_fits le d && (1 <=? zlen (vd_auxs d)) && placed img off (enc_verdef le d)
       && verdaux_chain le img stroff (off + vd_aux d) (vd_auxs d)
+      && link_ok (vd_next d) r
       && verdef_chain le img stroff (off + vd_next d) r
   end.
 
@@ -120,6 +138,17 @@ Definition verdef_section_wf (le : bool) (img : list Z) (shdrs : list shdr) (n :
   | None => false
   | Some (h, st) =>
       (sh_info h =? zlen defs)
+      && verdef_chain le img (sh_offset st) (sh_offset h) defs
+  end.
+
+(* section [n] is a version-definition section whose chain holds exactly [defs] and ENDS there with a zero
+   link, while the header's sh_info claims at least that many (a corrupt, too large count): the zero
+   link decides *)
+Definition verdef_section_ended_wf (le : bool) (img : list Z) (shdrs : list shdr) (n : nat) (defs : list verdef) : bool :=
+  match linked shdrs n SHT_GNU_verdef [SHT_STRTAB] with
+  | None => false
+  | Some (h, st) =>
+      (zlen defs <=? sh_info h) && ends_with_zero vd_next defs
       && verdef_chain le img (sh_offset st) (sh_offset h) defs
   end.
 
@@ -157,6 +186,7 @@ Fixpoint vernaux_chain (le : bool) (img : list Z) (stroff off : Z) (auxs : list 
   | a :: r =>
       vernaux_fits le a && placed img off (enc_vernaux le a)
       && str_at img (stroff + vna_name a) (vna_str a)
+      && link_ok (vna_next a) r
       && vernaux_chain le img stroff (off + vna_next a) r
   end.
 
@@ -167,6 +197,7 @@ Fixpoint verneed_chain (le : bool) (img : list Z) (stroff off : Z) (needs : list
       verneed_fits le d && (1 <=? zlen (vn_auxs d)) && placed img off (enc_verneed le d)
       && str_at img (stroff + vn_file d) (vn_str d)
       && vernaux_chain le img stroff (off + vn_aux d) (vn_auxs d)
+      && link_ok (vn_next d) r
       && verneed_chain le img stroff (off + vn_next d) r
   end.
 
@@ -184,6 +215,14 @@ Definition verneed_section_wf (le : bool) (img : list Z) (shdrs : list shdr) (n 
   | None => false
   | Some (h, st) =>
       (sh_info h =? zlen needs)
+      && verneed_chain le img (sh_offset st) (sh_offset h) needs
+  end.
+
+Definition verneed_section_ended_wf (le : bool) (img : list Z) (shdrs : list shdr) (n : nat) (needs : list verneed) : bool :=
+  match linked shdrs n SHT_GNU_verneed [SHT_STRTAB] with
+  | None => false
+  | Some (h, st) =>
+      (zlen needs <=? sh_info h) && ends_with_zero vn_next needs
       && verneed_chain le img (sh_offset st) (sh_offset h) needs
   end.
 
